@@ -60,6 +60,10 @@ pub struct OptSpec {
     pub fail_fast: bool,
     /// "dense" | "readable" | "retain_lines"
     pub generator_override: Option<String>,
+    /// when present, the harness rule `verif_include` is appended to the configuration
+    /// object with this source -> dependencies table (DESIGN.md §4.4)
+    #[serde(default, skip_serializing_if = "Option::is_none")]
+    pub include_deps: Option<std::collections::BTreeMap<String, Vec<String>>>,
 }
 
 #[derive(Clone, Copy, Debug, PartialEq, Eq, Serialize, Deserialize)]
